@@ -8,8 +8,10 @@
 package main
 
 import (
+	"encoding/json"
 	"fmt"
 	"os"
+	"os/exec"
 	"path/filepath"
 	"sort"
 	"strings"
@@ -375,14 +377,65 @@ func main() {
 	}
 
 	r.ParallelL(int64(len(states)), func(i int64, l *hx.Local) { explore(states[i], l) })
+	faultPart(r)
 	r.Rule = fmt.Sprintf("states = directory lists of length 1..3 with every position in %v x per-directory populations of the slots %v over %v without same-directory conflicts (%d populations per directory for <=1 good directory, a %d-element reduced set for more); "+
 		"transitions = every single repair (remove or rewrite a bad file, create a missing directory with a valid file) followed by Refresh on the same cache, to depth 2. "+
 		"Oracle: devices/listings of the unaffected files per the precedence model, every failing existing Spec file has an error entry and no other Spec file has one, Refresh()!=nil iff a Spec file is in error (nil only required when all directories are readable or absent). "+
 		"distinct_nontrivial = states with at least one bad file or directory", posKinds, slotNames, fileKinds, len(full), len(reduced))
-	r.Assumptions = []string{"unreadable files/directories and files vanishing during the scan cannot be produced on the real file system as root; they are the Engine B (fault-injection) part of this property",
+	r.Assumptions = []string{"unreadable files/directories, descriptor exhaustion and files vanishing during the scan are explored by errno injection into every file-system call of the scan (Engine B part: lstat ENOENT; opendir EACCES/EMFILE; open ENOENT/EACCES/EMFILE; read EIO; <=1 fault per scan, thorough <=2) on two populations; a file that vanishes between lstat and read may or may not get an error entry (not constrained)",
 		"no same-priority conflicts (the statement's refresh clause does not define them)", "a configured directory that is a regular file is given an extension-less name"}
 	os.RemoveAll(base)
 	r.Finish()
+}
+
+// faultPart runs the Engine B half (checks/c13faults, built through the overlay): errno
+// injection into every file-system call of the scan.
+func faultPart(r *hx.Run) {
+	bin := filepath.Join(hx.VerifRoot, ".bin", "c13faults")
+	if _, err := os.Stat(bin); err != nil {
+		fmt.Println("INFRA: c13faults binary missing")
+		os.Exit(2)
+	}
+	out, err := exec.Command(bin, r.Tier).Output()
+	if err != nil {
+		fmt.Println("INFRA: c13faults failed:", err)
+		os.Exit(2)
+	}
+	var fo struct {
+		Executions int64            `json:"executions"`
+		Points     int64            `json:"points"`
+		Outcomes   map[string]int64 `json:"outcomes"`
+		Violations []struct {
+			Sig, Msg string
+			Choices  []int
+			Schedule []string
+			OpLog    []string
+		} `json:"violations"`
+		Capped    bool   `json:"capped"`
+		Infra     string `json:"infra"`
+		Scenarios int    `json:"scenarios"`
+	}
+	if err := json.Unmarshal(out, &fo); err != nil {
+		fmt.Println("INFRA: c13faults output unreadable:", err)
+		os.Exit(2)
+	}
+	if fo.Infra != "" {
+		fmt.Println("INFRA:", fo.Infra)
+		os.Exit(2)
+	}
+	if fo.Capped {
+		r.Cap("fault exploration time cap")
+	}
+	r.AddEvals(fo.Executions, fo.Executions)
+	r.Transitions.Add(fo.Points)
+	for k := range fo.Outcomes {
+		r.Outcome("faults: " + k)
+	}
+	for _, v := range fo.Violations {
+		r.Fail(&hx.Failure{Sig: "faults:" + v.Sig, Msg: v.Msg, Case: map[string]any{"fault_injection": true, "choices": v.Choices, "answers": v.Schedule, "operations": v.OpLog}, Rank: int64(len(v.Choices))})
+	}
+	r.Extra["fault_injection_executions"] = fo.Executions
+	r.Extra["fault_injection_distinct_outcomes"] = len(fo.Outcomes)
 }
 
 func missingDirs(st *state) []string {
